@@ -22,7 +22,7 @@ ASSUMPTIONS = [
     "to the catalogue check value 0x6F91 for '123456789'",
     "start values are 16-bit (the property's quantifier); wider/negative starts are not judged",
 ]
-TIMEOUT = {"quick": 1800, "thorough": 7200}
+TIMEOUT = {"quick": 900, "thorough": 7200}
 NSTEP = 16
 
 
